@@ -91,12 +91,15 @@ func TestModelProblems(t *testing.T) {
 }
 
 func TestRenderParseRoundTripAndClosure(t *testing.T) {
-	for seed := int64(0); seed < 200; seed++ {
+	for seed := int64(0); seed < 3000; seed++ {
 		g := newGenA(rand.New(rand.NewSource(seed)))
 		for s, versions := range g.versions() {
 			for _, v := range versions {
 				if p := v.closureProblems(); len(p) > 0 {
 					t.Fatalf("seed %d: generated schema not closed: %v", seed, p)
+				}
+				if p := keyTypeMismatches(v); len(p) > 0 {
+					t.Fatalf("seed %d: federated key input differs from the object's key field: %v", seed, p)
 				}
 				d, err := parseIntrospection(v.render("svc"))
 				if err != nil {
